@@ -40,6 +40,8 @@ def usage_oracle(line, out):
     if "ABORT" in out:
         return "an internal assertion / abort() was reached in a usage-level function"
     cap = int(line.split()[5])
+    if " rw=0" in out or " uw=0" in out:
+        return "a reply builder reported a length for bytes that are not a complete well-formed STUN message (%s)" % " ".join(w for w in out.split() if w.startswith(("rp=", "rw=", "ue=", "uw=")))
     for w in out.split():
         if w.startswith(("rp=", "ue=", "tc=", "tr=")):
             n = int(w.split("=")[1].split(":")[-1])
